@@ -30,6 +30,7 @@ func init() {
 	register("C15", checkC15)
 	register("C16", checkC16)
 	register("C17", checkC17)
+	register("C18", checkC18)
 }
 
 func main() {
